@@ -93,12 +93,15 @@ def run(ctx, build, gammas=None, devices_list=None):
     gammas = gammas or [F(1, 4), F(1, 2), F(3, 4), F(1), F(0)]
     count = 80 if ctx.tier == "quick" else 1500
     cs = gen_cases(ctx, count, gammas)
-    devices_list = devices_list or ([1] if ctx.tier == "quick" else [1, 2, 3])
+    devices_list = devices_list or ([1, 2] if ctx.tier == "quick" else [1, 2, 3])
     corr, viols = [], []
     total = 0
     skipped_extract = 0
     for dv in devices_list:
-        sub = cs if dv == 1 else cs[: max(20, len(cs) // 6)]
+        sub = cs if dv == 1 else cs[: max(16, len(cs) // 6)]
+        if dv > 1:
+            # several batches PER DEVICE (the layout in which the order of the device and batch axes matters)
+            sub = [dict(c, mb=1 + (i % 2)) if i % 2 == 0 else c for i, c in enumerate(sub)]
         res = core.run_workers(ctx, [job_of(c) for c in sub], devices=dv)
         items, idx = [], []
         for k, (c, r) in enumerate(zip(sub, res)):
@@ -135,6 +138,7 @@ def run(ctx, build, gammas=None, devices_list=None):
         "traces_validated_against_impl": total,
         "families": fam, "gammas": sorted({c["g"] for c in cs}), "device_counts": devices_list,
         "cases_with_gamma_reassigned_after_first_trace": sum(1 for c in cs if c.get("g0", c["g"]) != c["g"]),
+        "multi_device_cases_with_several_batches_per_device": sum(1 for i, c in enumerate(cs[: max(16, len(cs) // 6)]) if i % 2 == 0 and c["spec"]["nS"] > 2 * len(devices_list[1:2] or [1]) * (1 + (i % 2))),
         "padded_last_batch_cases": sum(1 for c in cs if c["spec"]["nS"] % min(c["mb"], c["spec"]["nS"]) != 0),
         "private_extract_route_skipped": skipped_extract,
         "trusted_base_extra": ["values injected through the public attribute solver.values; greedy(V) for arbitrary V observed through the private _extract_policy when it exists"],
